@@ -316,6 +316,13 @@ class _Expr:
             raise Unsupported(node, 'non-empty dict literal')
         r = self.fresh_ref(st, 'dict')
         self.set_dictval(st, r, EMPTYMAP)
+        h = self.proc.locals.get('$on_alloc')
+        if h is not None:
+            # ghost initialisation of a freshly allocated object (rigid ghost tags: the invariants that mention them only
+            # constrain allocated objects, so the tags of an object may be chosen at the moment it is allocated)
+            lits = [n for n in ast.walk(self.fsrc.node) if isinstance(n, ast.Dict)]
+            lits.sort(key=lambda n: (n.lineno, n.col_offset))
+            h(self, st, r, [id(n) for n in lits].index(id(node)))
         return [(st, V(DICT, r))]
 
     def ev_JoinedStr(self, node, st):
